@@ -3,6 +3,7 @@ import VsbModel.Props.C02
 import VsbModel.Lemmas.RestoreSingle
 import VsbModel.Lemmas.PathRoundTrip
 import VsbModel.Lemmas.PlanFacts
+import VsbModel.Lemmas.GeneralCheck
 set_option linter.unusedSimpArgs false
 set_option linter.unusedSectionVars false
 
@@ -147,27 +148,42 @@ taken injective on the contents involved.  Then `vsb restore` of the target exit
 restored tree equals `fsOf lt.es` as a map from paths to nodes: every entry with its kind, bytes, link target,
 mode, owner and mtime, and nothing else.  Later backups of the group (`lg` beyond `t`) are arbitrary. -/
 theorem restore_exact (hashOf : List β → H) (hinj : ∀ x y, hashOf x = hashOf y → x = y)
-    (lg : List (LBackup β)) (t : Nat) (lt : LBackup β) (hlt : lg[t]? = some lt)
+    (lg : List (LBackup β)) (group : List (Backup H β))
+    (hG : ∀ (j : Nat) (lb : LBackup β), lg[j]? = some lb → group[j]? = some (render hashOf lb))
+    (t : Nat) (lt : LBackup β) (hlt : lg[t]? = some lt)
     (hwf : ∀ (j : Nat) (lb : LBackup β), j ≤ t → lg[j]? = some lb → WFArchive lb.es)
     (hres : ResolvableL lg t lt) :
-    ∃ fs, restore hashOf (lg.map (render hashOf)) t = .done fs true ∧ ∀ q, fsGet fs q = fsGet (fsOf lt.es) q := by
-  obtain ⟨p, hplan, pf⟩ := plan_facts hashOf hinj lg t lt hlt hwf hres
-  obtain ⟨st, hrun, fs, hmeta, hflag, hview⟩ := exec_ok hashOf lg t lt hlt p pf
+    ∃ fs, restore hashOf group t = .done fs true ∧ ∀ q, fsGet fs q = fsGet (fsOf lt.es) q := by
+  obtain ⟨p, hplan, pf⟩ := plan_facts hashOf hinj lg group hG t lt hlt hwf hres
+  obtain ⟨st, hrun, fs, hmeta, hflag, hview⟩ := exec_ok hashOf lg group hG t lt hlt p pf
   refine ⟨fs, ?_, hview⟩
   unfold restore
   simp only [hplan, hrun, hmeta, hflag]
 
 /-- Each file of the target comes back with its bytes and metadata, wherever its bytes were stored. -/
 theorem restore_exact_file (hashOf : List β → H) (hinj : ∀ x y, hashOf x = hashOf y → x = y)
-    (lg : List (LBackup β)) (t : Nat) (lt : LBackup β) (hlt : lg[t]? = some lt)
+    (lg : List (LBackup β)) (group : List (Backup H β))
+    (hG : ∀ (j : Nat) (lb : LBackup β), lg[j]? = some lb → group[j]? = some (render hashOf lb))
+    (t : Nat) (lt : LBackup β) (hlt : lg[t]? = some lt)
     (hwf : ∀ (j : Nat) (lb : LBackup β), j ≤ t → lg[j]? = some lb → WFArchive lb.es)
     (hres : ResolvableL lg t lt) (p : String) (m : Meta) (d : List β) (he : Entry.file p m d ∈ lt.es) :
-    ∃ fs, restore hashOf (lg.map (render hashOf)) t = .done fs true ∧
+    ∃ fs, restore hashOf group t = .done fs true ∧
       fsGet fs (fpOf (Entry.file p m d : Entry β)) = some (.file d (some m)) := by
-  obtain ⟨fs, h1, h2⟩ := restore_exact hashOf hinj lg t lt hlt hwf hres
+  obtain ⟨fs, h1, h2⟩ := restore_exact hashOf hinj lg group hG t lt hlt hwf hres
   refine ⟨fs, h1, ?_⟩
   rw [h2]
   exact fsGet_map_mem lt.es nodeOf _ he (hwf t lt (Nat.le_refl _) hlt).nodup
+
+/-- The form evaluated on real storages by the correspondence run: `generalCheck` reads the stored group back into
+its logical description (contents of `extern` files looked up by hash), checks that it renders to exactly what is
+stored, that every backup up to the target is well formed and that the target is resolvable; when it succeeds, the
+model's restore of the stored group exits 0 and yields the target's tree. -/
+theorem restore_exact_checked [DecidableEq β] (hashOf : List β → H) (hinj : ∀ x y, hashOf x = hashOf y → x = y)
+    (contentOf : H → Nat → Option (List β)) (group : List (Backup H β)) (t : Nat) (lg : List (LBackup β))
+    (h : generalCheck hashOf contentOf group t = some lg) :
+    ∃ lt, lg[t]? = some lt ∧ ∃ fs, restore hashOf group t = .done fs true ∧ ∀ q, fsGet fs q = fsGet (fsOf lt.es) q := by
+  obtain ⟨hG, hwf, lt, hlt, hres⟩ := generalCheck_sound hashOf contentOf group t lg h
+  exact ⟨lt, hlt, restore_exact hashOf hinj lg group hG t lt hlt hwf hres⟩
 
 /-- Non-vacuity: a group of two backups; the target's `b` is stored in the earlier backup, its `c` duplicates its own
 `a`, `e` is empty; all hypotheses of `restore_exact` hold. -/
